@@ -18,6 +18,12 @@ pub unsafe extern "C" fn getentropy(buf: *mut u8, len: usize) -> c_int {
 
 fn main() {
     let args: Vec<String> = std::env::args().skip(1).collect();
+    if args.first().map(|s| s.as_str()) == Some("lib-call") {
+        // child side of c17::isolated_call: hdv lib-call <entry>  (input on stdin)
+        install_panic_hook();
+        let entry = args.get(1).cloned().unwrap_or_default();
+        std::process::exit(hdv::props::c17::lib_call_main(&entry));
+    }
     let mut id = String::new();
     let mut tier = match std::env::var("VERIF_TIER").as_deref() {
         Ok("thorough") => Tier::Thorough,
@@ -86,6 +92,9 @@ fn main() {
     }
 
     hdv::cli::set_global(cli.clone(), root.clone());
+    if replay.is_none() {
+        hdv::isolate::init(&id, tier.name(), seed, root.clone());
+    }
     let mut ctx = Ctx::new(&id, tier, seed, root.clone());
     ctx.cli = cli;
     ctx.cli_plain = cli_plain;
